@@ -6,14 +6,16 @@ package callrec
 import (
 	"context"
 	"errors"
+	"fmt"
 
+	"github.com/jig/lisp/lisperror"
 	"github.com/jig/lisp/types"
 )
 
 // Rec is the script and the log of one case.
 type Rec struct {
 	// script
-	Beh   string        // ok | err | perr | pval | prt
+	Beh   string        // ok | err | perr | pwrap | plisp | pval | prt
 	Val   types.MalType // value returned (two results) or panicked with (pval)
 	Token interface{}   // the value the caller's context carries under CtxKey
 	// log
@@ -33,6 +35,10 @@ var Cur *Rec
 var (
 	ErrCallee = errors.New("callee error")
 	ErrPanic  = errors.New("callee panic")
+	// a Go error that WRAPS a lisp error (e.g. the error of a nested evaluation, annotated by the host function)
+	ErrWrapLisp = fmt.Errorf("storage layer: %w", lisperror.NewLispError(errors.New("inner failure"), nil))
+	// a lisp error panicked with as it is
+	ErrLisp error = lisperror.NewLispError(errors.New("lisp-level failure"), nil)
 )
 
 // A collects the fixed arguments as the callee received them.
@@ -71,6 +77,10 @@ func enter(ctx context.Context, hasCtx bool, fixed, variadic []types.MalType) {
 	switch r.Beh {
 	case "perr":
 		panic(ErrPanic)
+	case "pwrap":
+		panic(ErrWrapLisp)
+	case "plisp":
+		panic(ErrLisp)
 	case "pval":
 		panic(r.Val)
 	case "prt":
